@@ -100,6 +100,24 @@ def real_check(cls):
         return 'None'
 
 
+def spec_check(derived_first):
+    """C13 on a single-inheritance chain, most derived class first."""
+    scanned = []
+    for f in derived_first:
+        if f in ('reduce', 'reduce_ex'):
+            break
+        scanned.append(f)
+    seen_plain = False
+    for f in scanned:
+        if f == 'plain':
+            seen_plain = True
+        if f in ('remote', 'remote_kw') and seen_plain:
+            return 'None'
+    if any(f in ('reduce', 'reduce_ex') for f in derived_first):
+        return 'Some false'
+    return 'Some true' if any(f in ('remote', 'remote_kw') for f in derived_first) else 'Some false'
+
+
 def build_chain(feats, marker=False):
     """feats: most-base first.  Returns the most derived class, or 'Warning' if class creation
     itself raised (marker-derived inconsistent chains)."""
@@ -252,6 +270,37 @@ def main(tier, seed, replay=None):
                 continue
             got = real_check(c)
             terms.append(f'check_mro {mro_term(c)} ({got})'); keep.append(('chain', feats, marker, got))
+            # the statement of C13 about chains, computed independently (most derived first)
+            want = spec_check(feats[::-1])
+            if got != want:
+                res.violation(dict(chain=feats, marker=marker), f'opt-in check gives {got}, the property requires {want} (Some true = opt-in, None = Warning)', observed=got)
+            again = real_check(c)
+            if again != got:
+                res.violation(dict(chain=feats, marker=marker), f'the opt-in check of the same class answers {got} the first time and {again} the second time', observed=again)
+            # and what it means for pickling an instance
+            try:
+                o = c(); o.v = 1
+            except Exception:
+                o = None
+            if o is not None:
+                for remote in (True, False):
+                    try:
+                        ref = pickle.dumps(o)
+                    except Exception as e:
+                        ref = ('exc', type(e).__name__)
+                    for attempt in (1, 2):
+                        try:
+                            b = remote_pickle.dumps(o, remote=remote)
+                        except Warning:
+                            b = ('warning',)
+                        except Exception as e:
+                            b = ('exc', type(e).__name__)
+                        if want == 'Some false' and b != ref:
+                            res.violation(dict(chain=feats, marker=marker, remote=remote, attempt=attempt),
+                                          'an instance of a class that does not opt in is not pickled like pickle.dumps does', observed=str(b)[:80])
+                        if want == 'None' and remote and b != ('warning',):
+                            res.violation(dict(chain=feats, marker=marker, remote=remote, attempt=attempt),
+                                          'an instance of a class with an inconsistent opt-in chain is pickled without Warning', observed=str(b)[:80])
             # direct oracle: never silently registered without a remote-aware __getstate__
             if got == 'Some true' and not any(f in ('remote', 'remote_kw') for f in feats):
                 res.violation(dict(chain=feats, marker=marker), 'class registered as opt-in although no __getstate__ takes `remote`', observed=got)
